@@ -197,7 +197,8 @@ def hier_entry(h, mod, prefix):
     if fl == "config-codec":
         dec = mod.BasicDecoder(base).decode
         return (lambda d, wd=False: dec(d)), False
-    ann = typing.Annotated[base, mod.Discriminator(field=h["field"], include_subtypes=True)]
+    ann = typing.Annotated[base, mod.Discriminator(field=h["field"], include_subtypes=True,
+                                                   **({"variant_tagger_fn": mod.c05_tagger} if h.get("tagger") else {}))]
     if fl == "annotated-codec":
         dec = mod.BasicDecoder(ann).decode
         return (lambda d, wd=False: dec(d)), False
@@ -265,7 +266,7 @@ def hier_section(ctx, rng, n_hier: int):
         if h["flavour"] in ("config-msgpack", "config-orjson"):
             inputs = [fmt_safe(d) for d in inputs]
         walk = G.hier_walk(h)
-        ctx.hist("hier_flavour", h["flavour"])
+        ctx.hist("hier_flavour", h["flavour"] + ("+tagger" if h.get("tagger") else ""))
         vterms_tables = {i: [] for i in walk}
         observed = []
         schema = {"cls": f"H{h['idx']}", "source": src_real, "hier": h, "fields": [], "mixin": True, "forbid": False,
@@ -300,7 +301,7 @@ def hier_section(ctx, rng, n_hier: int):
                 tag = d[h["field"]]
                 owner = None
                 for i in walk:
-                    if type(tag) is str and h["classes"][i]["tag"] == tag:
+                    if type(tag) is str and tag in G.tags_of(h, i):
                         owner = i
                 if owner is None:
                     exp_txt = "SuitableVariantNotFoundError"
@@ -347,9 +348,11 @@ def hier_section(ctx, rng, n_hier: int):
                 vterms_tables[i].append((G.enc(d), _rename(outcome_term(tr, texc, key_order), h)))
         vterms = []
         for i in walk:
-            c = h["classes"][i]
-            tagt = f"(Some {coq_str(c['tag'])})" if c["tag"] is not None else "None"
-            vterms.append(f"({tagt}, table_fun {table_term(vterms_tables[i])})")
+            tags = G.tags_of(h, i)
+            for tg in tags:      # a tagger returning a list registers the variant under every element, in order
+                vterms.append(f"(Some {coq_str(tg)}, table_fun {table_term(vterms_tables[i])})")
+            if not tags:
+                vterms.append(f"(None, table_fun {table_term(vterms_tables[i])})")
         cases.append(f"({coq_str(h['field'])}, {coq_list(vterms)}, {coq_list([G.enc(d) for d in inputs])}, {coq_list(observed)})")
         labels.append(f"H{k} {h['flavour']} history {inputs!r}"[:200])
         if k < 2:
@@ -681,13 +684,15 @@ def run(ctx: vlib.Ctx):
     ]
     ctx.theorems("props/C05_errors.vo", THEOREMS)
     ctx.theorems("props/C05_typed.vo", TYPED_THEOREMS)
+    ctx.theorems("props/C05_xtyped.vo", ["C05_x_outcomes", "C05_x_first_bad", "C05_x_union_position",
+                                         "C05_x_union_rejects_partial", "C05_lit_ok", "C05_lit_exn"])
     # (T) kernel K16: emitted handler classes + exceptions.py hierarchy, re-translated from /repo on every run
     ctx.theorems("props/C05_handlers.vo", ["C05_k16_handlers_as_modelled", "C05_k16_documented_pass_through",
                                            "C05_k16_model_patterns"], kernels=["K16"])
     if not ctx.quick():
         # second opinion: the independent checker re-validates the compiled property files and their cone
         rc, log, secs = vlib.run(["timeout", "1500", "coqchk", "-silent", "-o", "-Q", "theories", "Verif", "-Q", "gen", "VerifGen",
-                                  "-Q", "props", "VerifProps", "VerifProps.C05_errors", "VerifProps.C05_typed", "VerifProps.C05_handlers"],
+                                  "-Q", "props", "VerifProps", "VerifProps.C05_errors", "VerifProps.C05_typed", "VerifProps.C05_xtyped", "VerifProps.C05_handlers"],
                                  cwd=vlib.COQ, timeout=1530)
         ok = rc == 0 and "Axioms: <none>" in log
         ctx.obligation("coqchk VerifProps.C05_errors C05_typed C05_handlers (Axioms: <none>)", ok, log[-400:])
@@ -696,7 +701,7 @@ def run(ctx: vlib.Ctx):
             ctx.not_shown("coqchk VerifProps.C05_errors/C05_typed", log[-800:])
 
     rng = ctx.rng
-    n_schemas = ctx.budget(140, 2000)
+    n_schemas = ctx.budget(140, 1500)
     n_inputs = ctx.budget(16, 24)
     corr_budget = ctx.budget(500, 12000)
 
@@ -859,7 +864,7 @@ def run(ctx: vlib.Ctx):
 
         # ---- type level: error-faithful typed unpackers (ErrsTy.ue) vs BasicDecoder / from_dict
         from harness.props import c05_typed
-        tcases, tbad, tlog = c05_typed.run(ctx, ctx.budget(45, 500), ctx.budget(2, 3))
+        tcases, tbad, tlog = c05_typed.run(ctx, ctx.budget(45, 360), ctx.budget(2, 3))
         if tbad is None:
             ctx.correspondence("c05_typed", len(tcases), -1, tlog)
             ctx.not_shown("correspondence c05_typed", tlog)
@@ -870,6 +875,19 @@ def run(ctx: vlib.Ctx):
             if tbad:
                 ctx.not_shown("correspondence c05_typed", f"{len(tbad)} of {len(tcases)} cases differ: {det}")
         ctx.count(n=len(tcases))
+        # ---- Union / Literal field positions and codec roots over the typed grammar (ErrsX.uex / uex_root)
+        from harness.props import c05_xtyped
+        xcases, xbad, xlog = c05_xtyped.run(ctx, ctx.budget(40, 160), ctx.budget(2, 3))
+        if xbad is None:
+            ctx.correspondence("c05_xtyped", len(xcases), -1, xlog)
+            ctx.not_shown("correspondence c05_xtyped", xlog)
+        else:
+            det = "; ".join(f"{c05_xtyped.gen.py_ann(xcases[i]['t'])} via {xcases[i]['entry']} <- {xcases[i]['input']!r}: impl {xcases[i]['term']} ctx {xcases[i]['cx']}"[:500]
+                            for i in xbad[:6])
+            ctx.correspondence("c05_xtyped", len(xcases), len(xbad), det)
+            if xbad:
+                ctx.not_shown("correspondence c05_xtyped", f"{len(xbad)} of {len(xcases)} cases differ: {det}")
+        ctx.count(n=len(xcases))
         hic, hil = hier_section(ctx, rng, ctx.budget(120, 1500))
         run_corr(ctx, "c05_discr_history", hic,
                  "fun c => match c with (f, vs, ins, outs) => list_eqb res_eqb (discr_history f vs [] ins) outs end",
